@@ -403,8 +403,20 @@ fn gen_sched(prop: &str, case: &mut Case, w: &mut Rng, k: &mut Rng, knobs: &mut 
                             pred: del_pred(w, next),
                         }
                     } else {
+                        // count(*), or a query whose plan needs the column types of the table
+                        // (sort, projection): binding and building are separate steps, the
+                        // table can be dropped in between
                         let mut q = Query::star(&t);
-                        q.count = true;
+                        match w.usize(3) {
+                            0 => q.count = true,
+                            1 => {
+                                q.order = vec![OrderKey { col: "c0".into(), desc: w.chance(1, 2) }];
+                            }
+                            _ => {
+                                q.cols = vec!["c1".into()];
+                                q.order = vec![OrderKey { col: "c1".into(), desc: false }];
+                            }
+                        }
                         Stmt::Select(q)
                     }
                 }
